@@ -5,7 +5,7 @@
    120-129 latex wrapper | 130-149 splitter | 150-159 round trip | 160-179 heap *)
 From Coq Require Import List NArith ZArith Bool.
 From BP Require Import Base.Chars Base.Sx Run.Codec.
-From BP Require Import Run.RunMonth Run.RunSplitter Run.RunEntry Run.RunLibrary Run.RunSortFields Run.RunSortBlocks Run.RunWriter Run.RunStack Run.RunEnclosing Run.RunInterpolate Run.RunLatex Run.RunGrammar Run.RunHeap Run.RunPipeline.
+From BP Require Import Run.RunMonth Run.RunSplitter Run.RunEntry Run.RunLibrary Run.RunSortFields Run.RunSortBlocks Run.RunWriter Run.RunStack Run.RunEnclosing Run.RunInterpolate Run.RunLatex Run.RunGrammar Run.RunHeap Run.RunPipeline Run.RunNames.
 Import ListNotations.
 Local Open Scope Z_scope.
 
@@ -22,6 +22,7 @@ Definition run_case (x : sx) : sx :=
       else if in_range 50 59 op then run_sortblocks op args
       else if in_range 60 69 op then run_writer op args
       else if in_range 70 79 op then run_stack op args
+      else if in_range 80 99 op then run_names op args
       else if in_range 100 109 op then run_enclosing op args
       else if in_range 110 119 op then run_interpolate op args
       else if in_range 120 129 op then run_latex op args
